@@ -230,11 +230,21 @@ def run(ctx):
         ctx.ob('R04.3', 'hooks are iterated forward over the vector', fwd and not rev, ctx.where(ap),
                'iterator calls: %s' % sorted(n for n in names if 'iter' in n.lower()), construct='hooks-order')
         hcalls = [blk for blk in ap.blocks if is_dyn_call(blk.term) and not blk.cleanup]
-        ctx.floor('R04.3', 'hook invocations in HookVec::apply', len(hcalls), 2)
+        # a per-hook async helper (`hook.call(inner).await?`): its poll is the invocation site here; the dyn calls are inside
+        helper_polls = []
+        for blk in ap.blocks:
+            cb_ = prog.bodies.get(blk.term.rcallee) if blk.term.kind == 'call' and not blk.cleanup and blk.term.rcallee else None
+            if cb_ is not None and cb_.is_coroutine and cb_.path != ap.path and any(is_dyn_call(x.term) and not x.cleanup for x in cb_.blocks):
+                helper_polls.append(blk)
+                ctx.saw(cb_)
+        n_inv = len(hcalls) + sum(len([x for x in prog.bodies[h.term.rcallee].blocks if is_dyn_call(x.term) and not x.cleanup]) for h in helper_polls)
+        hcalls = hcalls + helper_polls
+        ctx.floor('R04.3', 'hook invocations in HookVec::apply', n_inv, 2)
         ok_e, fail_e = success_edges(aan)
         for h in hcalls:
             reach = reach_without_edges(aan, h.idx, ok_e, ('normal',))
-            again = [x.idx for x in hcalls if x.idx in reach]
+            # polling the same helper future again (Pending -> yield -> poll) is not a further hook
+            again = [x.idx for x in hcalls if x.idx in reach and not (x.idx == h.idx and h in helper_polls)]
             ctx.ob('R04.3', 'no further hook after a failing hook', not again, ctx.where(ap, h.term.line),
                    'a hook call at line(s) %s is reachable without passing the success branch of this hook' % [ap.blocks[x].term.line for x in again]
                    if again else '', construct='hooks-continue-after-error')
